@@ -74,6 +74,8 @@ def gen_scenario(seed, i):
                 inv["flags"]["multiple"] = True
             inv["flags"]["keep_going"] = rng.choice([0, 1, 2, 3])
             inv["ninja_rc"] = rng.choice([0, 1, 1, 2, "kill"])
+            if rng.random() < 0.25:
+                inv["flags"]["generate_only"] = True          # -G with a task: nothing is built, no task is started
         elif r < 0.3:
             inv = {"subcommand": "clean", "unused": rng.random() < 0.5, "flags": {"verbose": rng.choice([0, 1])}, "ninja_rc": rng.choice([0, 1, "kill"]), "args": {}}
         invs.append(inv)
